@@ -48,23 +48,42 @@ pub fn run(env: &Env, prop: &str, tier: &str) -> i32 {
             return 2;
         }
     };
-    let out = env.work.join(format!("report-{prop}.json"));
-    let _ = std::fs::remove_file(&out);
-    let st = Command::new(&built.bin)
-        .args(["--prop", prop, "--tier", tier, "--seed", &env.seed.to_string(), "--out"])
-        .arg(&out)
-        .status()
-        .expect("harness");
-    let Ok(text) = std::fs::read_to_string(&out) else {
-        eprintln!("INCONCLUSIVE: harness produced no report (status {st:?})");
-        return 2;
+    let rep = match run_harness(env, &built.bins, prop, tier, &[]) {
+        Ok(r) => r,
+        Err(e) => {
+            eprintln!("INCONCLUSIVE: {e}");
+            return 2;
+        }
     };
-    let rep: vlib_report::RunReport = serde_json::from_str(&text).expect("report json");
-    if let Some(a) = &rep.assumption_failure {
-        eprintln!("INCONCLUSIVE: assumption failure: {a}");
-        return 2;
-    }
     finish(env, prop, tier, &decls, &built, rep, t0)
+}
+
+/// run all corpus binaries concurrently and merge their reports
+pub fn run_harness(env: &Env, bins: &[PathBuf], prop: &str, tier: &str, extra: &[String]) -> Result<vlib_report::RunReport, String> {
+    let threads = (16 / bins.len().max(1)).max(2);
+    let mut children = vec![];
+    for (k, b) in bins.iter().enumerate() {
+        let out = env.work.join(format!("report-{prop}-{k}.json"));
+        let _ = std::fs::remove_file(&out);
+        let ch = Command::new(b)
+            .args(["--prop", prop, "--tier", tier, "--seed", &env.seed.to_string(), "--threads", &threads.to_string(), "--out"])
+            .arg(&out)
+            .args(extra)
+            .spawn()
+            .map_err(|e| format!("cannot start {}: {e}", b.display()))?;
+        children.push((ch, out));
+    }
+    let mut total = vlib_report::RunReport::default();
+    for (mut ch, out) in children {
+        let st = ch.wait().map_err(|e| e.to_string())?;
+        let text = std::fs::read_to_string(&out).map_err(|_| format!("harness produced no report (status {st:?})"))?;
+        let rep: vlib_report::RunReport = serde_json::from_str(&text).map_err(|e| format!("report json: {e}"))?;
+        if let Some(a) = &rep.assumption_failure {
+            return Err(format!("assumption failure: {a}"));
+        }
+        total.merge(rep);
+    }
+    Ok(total)
 }
 
 /// mirror of vlib::report::RunReport (vdriver does not link vlib)
@@ -101,6 +120,32 @@ pub mod vlib_report {
         pub notes: Vec<String>,
         pub assumption_failure: Option<String>,
         pub wall_s: f64,
+    }
+    impl RunReport {
+        pub fn merge(&mut self, o: RunReport) {
+            self.prop = o.prop;
+            self.tier = o.tier;
+            self.seed = o.seed;
+            self.decls_total += o.decls_total;
+            self.decls_relevant += o.decls_relevant;
+            self.evaluations += o.evaluations;
+            self.nontrivial += o.nontrivial;
+            self.exhaustive_decls += o.exhaustive_decls;
+            for (k, v) in o.classes {
+                *self.classes.entry(k).or_insert(0) += v;
+            }
+            for s in o.samples {
+                let class = s.get("class").and_then(|c| c.as_str()).unwrap_or("").to_string();
+                let have = self.samples.iter().filter(|x| x.get("class").and_then(|c| c.as_str()) == Some(class.as_str())).count();
+                if have < 2 && self.samples.len() < 40 {
+                    self.samples.push(s);
+                }
+            }
+            self.viols.extend(o.viols);
+            self.repeats += o.repeats;
+            self.notes.extend(o.notes);
+            self.wall_s = self.wall_s.max(o.wall_s);
+        }
     }
 }
 
@@ -259,7 +304,7 @@ pub fn replay(env: &Env, dir: &str) -> i32 {
     let rdir = env.work.join("gen/replay");
     let _ = std::fs::remove_dir_all(rdir.join("src"));
     std::fs::create_dir_all(rdir.join("src")).ok();
-    write_if_changed(&rdir.join("Cargo.toml"), &cargo_toml(env, "replaycorpus", &["serde", "regex", "arbitrary", "new_unchecked"]));
+    write_if_changed(&rdir.join("Cargo.toml"), &format!("{}\n{}", member_toml(env, "replaycorpus", RT_FEATURES), workspace_toml(&[]).replace("members = []", "")));
     std::fs::create_dir_all(rdir.join(".cargo")).ok();
     write_if_changed(&rdir.join(".cargo/config.toml"), "[net]\noffline = true\n");
     if !rdir.join("Cargo.lock").exists() {
